@@ -34,7 +34,7 @@ pub fn plan(p: &EpParams) -> Plan {
     Plan {
         episodes: n,
         exhaustive: false,
-        rule: "4-8 concurrent clients x 5-14 operations over a pool of 2 topic names and 3 subscription names in 2 projects: CreateTopic / DeleteTopic / GetTopic / ListTopics / ListTopicSubscriptions / Publish / CreateSubscription (a different ack deadline per incarnation; sometimes across projects or on a missing topic) / GetSubscription / ListSubscriptions / DeleteSubscription / Pull / Acknowledge / ModifyAckDeadline, seeded yields before every operation and at the server's schedule points. Per-name WGL linearizability search with the two-point Delete of DESIGN 4/C10. Non-trivial: >=2 operations on one name overlapped. Distinct: per-name history shape (operation kinds, outcomes, overlap structure).".into(),
+        rule: "4-8 concurrent clients x 5-14 operations over a pool of 2 topic names and 3 subscription names in 2 projects: CreateTopic / DeleteTopic / GetTopic / ListTopics / ListTopicSubscriptions / Publish / CreateSubscription (a different ack deadline per incarnation; sometimes across projects or on a missing topic) / GetSubscription / ListSubscriptions / DeleteSubscription / Pull / Acknowledge / ModifyAckDeadline, seeded yields before every operation and at the server's schedule points; in half of the episodes 2-4 extra clients released together by a barrier issue the same create/delete on the same name for 2-5 rounds. Per-name WGL linearizability search with the two-point Delete of DESIGN 4/C10. Non-trivial: >=2 operations on one name overlapped. Distinct: per-name history shape (operation kinds, outcomes, overlap structure).".into(),
     }
 }
 
@@ -64,6 +64,8 @@ async fn episode(p: &EpParams, mt: bool) -> EpReport {
     }
     let deadline_counter = Arc::new(AtomicU32::new(12));
     let n_clients = rng.range(4, 8);
+    // (with barrier racers on top the other clients issue fewer calls: the per-name search is bounded at 62 operations)
+    let racers_on = rng.chance(1, 2);
     let mut tasks = Vec::new();
     for c in 0..n_clients {
         let cx = Cx::new(&w, 1 + c as u32);
@@ -74,7 +76,7 @@ async fn episode(p: &EpParams, mt: bool) -> EpReport {
         let focus_t = r.pick(&topics).clone();
         let focus_s = r.pick(&subs).clone();
         tasks.push(tokio::spawn(async move {
-            let n = r.range(5, 14);
+            let n = if racers_on { r.range(4, 9) } else { r.range(5, 14) };
             for _ in 0..n {
                 jitter_small(&mut r, mt).await;
                 let t = if r.chance(2, 3) { focus_t.clone() } else { r.pick(&topics).clone() };
@@ -127,6 +129,41 @@ async fn episode(p: &EpParams, mt: bool) -> EpReport {
                 }
             }
         }));
+    }
+    // racers: 2-4 clients released together by a barrier issue the *same* operation on the same
+    // name, round after round (on worker threads this is as simultaneous as requests get: a
+    // check-then-act on a name map has to survive it)
+    if racers_on {
+        let k = rng.range(2, 4) as usize;
+        let rounds: Vec<(u64, String, String)> = (0..rng.range(2, 5)).map(|_| (rng.below(6), rng.pick(&topics).clone(), rng.pick(&subs).clone())).collect();
+        let barrier = Arc::new(tokio::sync::Barrier::new(k));
+        for i in 0..k {
+            let cx = Cx::new(&w, 40 + i as u32);
+            let (rounds, barrier, dc) = (rounds.clone(), Arc::clone(&barrier), Arc::clone(&deadline_counter));
+            tasks.push(tokio::spawn(async move {
+                for (kind, t, s) in rounds {
+                    // the topic that goes with the subscription's project
+                    let own_t = if s.starts_with("projects/p1/") { topic_name(1, 1) } else { topic_name(2, 1) };
+                    barrier.wait().await;
+                    match kind {
+                        0 | 1 | 2 => {
+                            let d = dc.fetch_add(1, Ordering::SeqCst) as i32;
+                            let _ = cx.create_sub(&s, &own_t, d).await;
+                        }
+                        3 => {
+                            let _ = cx.delete_sub(&s).await;
+                        }
+                        4 => {
+                            let _ = cx.create_topic(&t).await;
+                        }
+                        _ => {
+                            let _ = cx.delete_topic(&t).await;
+                        }
+                    }
+                }
+            }));
+        }
+        rep.inc("episodes_with_barrier_racers");
     }
     let all = async {
         for t in tasks.iter_mut() {
